@@ -2,7 +2,7 @@
 # usage: seed_verify.sh <Cxx> [suffix]   -- confirms a sub-agent's seeded change in its scratch worktree /tmp/seed-<Cxx><suffix>:
 #   with the change: crate builds, the repository's own tests pass, the demonstration fails; without it: the demonstration passes.
 # On success copies patch.diff / demo_test.rs / meta.json to /verif/seeded/<Cxx><suffix>/ and appends what was run to meta.json.
-id="$1"; sfx="${2:-}"; wt="/tmp/seed-$id$sfx"; out="/verif/seeded/$id$sfx"
+id="$1"; sfx="${2:-}"; wt="${3:-/tmp/seed-$id$sfx}"; out="/verif/seeded/$id$sfx"
 cd "$wt" || exit 2
 export CARGO_NET_OFFLINE=true
 [ -f seed/patch.diff ] && [ -f seed/demo_test.rs ] && [ -f seed/meta.json ] || { echo "deliverables missing"; exit 2; }
